@@ -251,6 +251,58 @@ theorem pauliB_apply (a : Fin 4) (i j : Fin 2) : basisM pauliB a i j = rs2 * sig
   simp [basisM, pauliB]
 
 
+/-! ### sequencing of per-block results (`seqV` = `Vector.mapM id` in `Except`) -/
+theorem list_mapM_id_ok {α : Type} (l : List (Except Err α)) (l' : List α) (h : l.mapM id = .ok l') :
+    l = l'.map .ok := by
+  induction l generalizing l' with
+  | nil => simp [pure, Except.pure] at h; subst h; rfl
+  | cons a l ih =>
+    rw [List.mapM_cons] at h
+    cases a with
+    | error e => simp [bind, Except.bind] at h
+    | ok x =>
+      simp only [id, bind, Except.bind] at h
+      cases hl : l.mapM id with
+      | error e => rw [hl] at h; simp [pure, Except.pure] at h
+      | ok r =>
+        rw [hl] at h
+        simp [pure, Except.pure] at h
+        subst h
+        simp [ih r hl]
+
+theorem seqV_ok {α : Type} {n : Nat} (v : Vector (Except Err α) n) (P : Vector α n) (h : seqV v = .ok P) :
+    ∀ k : Fin n, v[k] = .ok P[k] := by
+  have h1 : Vector.toArray <$> v.mapM id = v.toArray.mapM id := Vector.toArray_mapM
+  unfold seqV at h
+  rw [h, Array.mapM_eq_mapM_toList] at h1
+  cases hl : v.toArray.toList.mapM id with
+  | error e => rw [hl] at h1; simp [Functor.map, Except.map] at h1
+  | ok r =>
+    rw [hl] at h1
+    simp only [Functor.map, Except.map] at h1
+    injection h1 with h1
+    have hr : r = P.toArray.toList := by
+      have := congrArg Array.toList h1; simpa using this.symm
+    have hv := list_mapM_id_ok _ _ hl
+    rw [hr] at hv
+    intro k
+    have : v.toArray.toList[k.val]'(by simp) = (P.toArray.toList.map Except.ok)[k.val]'(by simp) := by
+      simp [hv]
+    simpa using this
+
+theorem seqV_of_ok {α : Type} {n : Nat} (v : Vector (Except Err α) n) (P : Vector α n) (h : ∀ k : Fin n, v[k] = .ok P[k]) :
+    seqV v = .ok P := by
+  have hv : v = P.map Except.ok := by
+    apply Vector.ext; intro i hi
+    simpa using h ⟨i, hi⟩
+  unfold seqV
+  rw [hv, Vector.mapM_map]
+  have := Vector.mapM_pure (m := Except Err) (xs := P) (f := id)
+  simpa [pure, Except.pure] using this
+
+theorem sqd2_rows {m n : Nat} (X P : Mat ℝ m n) : sqd2 X P = ∑ k : Fin m, sqd1 X[k] P[k] := by
+  simp [sqd2, sqd1, fsum_eq_sum, Mat.get, Vec.get]
+
 /-! a concrete instance used for the non-vacuity examples of QProps.C04 -/
 
 /-- diagonal matrix units E11, E22: an orthonormal Hermitian family (rational entries) -/
